@@ -59,6 +59,18 @@ def specs(tier: str, seed: int) -> list[dict]:
     add("GrandCanonical", "A3", [["x", "D_ball+E_trans", 1.0, "gc"]], ("tags",))
     add("GrandCanonical", "A2", [["x", "D_ball+E_trans+E_trans", 1.0, "gc"]], ())
     add("GrandCanonical", "A3", [["e", "E_trans"]], (), labels=[1, -1, 0])
+    # state changed by the user between construction and the first run
+    add("Canonical", "A3", [["d", "D_ball"]], ("tags",), late=["shift"])
+    add("Isobaric", "A3", [["c", "C_iso"], ["d", "D_ball"]], (), late=["strain"])
+    add("Isotension", "T3", [["c", "C_aniso"]], (), late=["strain", "shift"])
+    add("GrandCanonical", "A2", [["e", "E_trans"]], ("tags",), late=["shift"])
+    # collective constraint + vetoed attempts
+    add("Canonical", "A3", [["d", "D_ball"]], ("fixcom",), check=True)
+    add("Canonical", "M", [["d", "D_rot"], ["t", "D_trans"]], ("fixcom", "tags"), check=True)
+    add("HamiltonianCanonical", "A3", [["h", "H1"]], ("fixcom", "momenta"), calc="harmonic", check=True)
+    # plain composites exchanging in both directions within one trial, distinguishable atoms
+    add("GrandCanonical", "A3", [["x", "D_ball+E_trans+E_trans", 1.0, "gc"]], rich)
+    add("GrandCanonical", "M1", [["x", "D_rot+E_transrot+E_transrot", 1.0, "gc"]], ("tags", "charges"))
     if tier == "thorough":
         for s in list(out):
             if s["depth"] is None:
